@@ -56,7 +56,7 @@ func (check) Assumptions() []string {
 		"a fractional float whose truncation fits but which lies beyond the range as a real (127.9 into int8) may be an error or the truncated value",
 		"not compared: which error; number<->bool and bool->number/Duration (no mathematical reading); spellings on/off/yes/no for bool; the text a float renders to (it must parse back to the same float64); sign of zero; NaN payload",
 		"an error where a value was possible is reported only for in-range integer->integer, integer->float64 when exactly representable, and float64->float64 (literal numbers, any route)",
-		"a named type over time.Duration (type D time.Duration, also *D, as map value and slice element) is a duration like time.Duration itself: numbers mean seconds, strings are duration syntax, the range is int64 nanoseconds; a stored value equal to the bare number gets the signature number-to-named-duration-taken-as-nanoseconds",
+		"a named type over time.Duration (type D time.Duration, also *D, as map value and slice element) is generated and converted but NOT held to the seconds reading: to reflection it is a named int64 like any other (Kind int64, no methods, nothing links it to time.Duration), so no library can give it another meaning than `type N int64`, whose values this check pins to the bare number; only panics are reported, the named_duration_* monitors count what is stored (switch judgeNamedDurationAsSeconds turns the duration oracle on: sig number-to-named-duration-taken-as-nanoseconds)",
 		"monitor only (an error is always allowed): plain_ref_fails_where_value_converts counts (value, target, route) triples of the table cases in which the literal / Set* value converts and a plain \"${src}\" reference to it returns an error",
 		"text the library reads again (expansion forms other than a plain \"${src}\", resolver answers, flag values): only words without white space, quotes, brackets, commas, colons, $ and not \"null\", so that list/object/quoting syntax and the splice syntax play no part. The reference for text T: an integer numeral in Go's base-0 syntax (math/big, any length, explicit + allowed) that fits int64 or uint64 must reach integer targets exactly or as an error, string targets as a numeral of exactly that value (any spelling, read back with math/big), float targets as the nearest float; a numeral both integer and floating point syntax read, differently (\"012\": 10 / 12), may arrive as either in float and string targets; an integer no 64 bit type holds is out of range for every integer target (always an error), for string targets its own text, an exact numeral or a text of the float64 strconv.ParseFloat reads it as; floating point texts mean the float64 strconv.ParseFloat reads; boolean words are not pinned for numeric and string targets, numerals not for bool targets; an error is never reported as spurious on these routes; which of the forms yields which Go type inside the library is not looked at",
 		"guard: a library that hands back an unconverted string for a named string type panics (recoverably) as map value and never returns (pointerize allocates until the process dies) as struct field or behind a pointer; so in every case the named string map route runs first, and when it panics - reported as a violation - the never-returning routes of that case are skipped (counted in skipped_after_named_string_panic) instead of killing the worker in every case",
@@ -627,17 +627,6 @@ func (ru *runner) judge(cons, ki int, k *tkind, to string, err error, got reflec
 	if err != nil {
 		ru.last = lastErr
 	}
-	if namedDur {
-		defer func(n int) {
-			if ru.res.Events["violations_raw"] > int64(n) {
-				ru.res.Ev("named_duration_violations", 1)
-			} else if err != nil {
-				ru.res.Ev("named_duration_errors", 1)
-			} else {
-				ru.res.Ev("named_duration_values_as_expected", 1)
-			}
-		}(int(ru.res.Events["violations_raw"]))
-	}
 	// a named duration that received the bare number: the number was taken as
 	// nanoseconds (one defect, whatever the source and whether the seconds fit)
 	asNanos := func() bool {
@@ -650,6 +639,26 @@ func (ru *runner) judge(cons, ki int, k *tkind, to string, err error, got reflec
 		}
 		v := nsReading(es)
 		return v != nil && v.Sign() != 0 && gotInt(k, got).Cmp(v) == 0
+	}
+	if namedDur {
+		// monitors: what a named duration receives
+		switch {
+		case err != nil:
+			ru.res.Ev("named_duration_error", 1)
+		case !present:
+			ru.res.Ev("named_duration_nothing_stored", 1)
+		case gotInt(k, got).Sign() == 0:
+			ru.res.Ev("named_duration_zero", 1)
+		case asNanos():
+			ru.res.Ev("named_duration_number_taken_as_nanoseconds", 1)
+		case e.mode != mErr && e.mode != mUnpinned && e.matches(k, got):
+			ru.res.Ev("named_duration_number_taken_as_seconds", 1)
+		default:
+			ru.res.Ev("named_duration_other_value", 1)
+		}
+		if !judgeNamedDurationAsSeconds {
+			return
+		}
 	}
 	if err != nil {
 		ru.res.SetAdd("error_reason", errClass(err))
@@ -718,6 +727,18 @@ func (ru *runner) judge(cons, ki int, k *tkind, to string, err error, got reflec
 	ru.res.Violate(sig, "%s returned nil error and stored %s, expected %s", call(), describeGot(k, got), e.describe())
 	ru.outcome(k, "wrong-value")
 }
+
+// judgeNamedDurationAsSeconds: the property's quantifier lists "named variants"
+// of time.Duration, and with this switch on `type D time.Duration` targets are
+// held to the duration reading (numbers = seconds; HEAD then violates with sig
+// number-to-named-duration-taken-as-nanoseconds in every case). It is OFF
+// because no Go program can implement that reading: the underlying type of D
+// is int64, D inherits no methods, and reflection shows nothing that tells D
+// from `type N int64` (same Kind, NumMethod 0, both ConvertibleTo
+// time.Duration) - for which the same property, and this check (myInt64),
+// demand the number itself. The targets are still generated and converted
+// (panics count), what they receive is shown by the named_duration_* monitors.
+const judgeNamedDurationAsSeconds = false
 
 const (
 	lastNone = iota
